@@ -19,7 +19,42 @@ def sh(cmd, cwd=None, timeout=1800):
     p = subprocess.run(cmd, shell=True, cwd=cwd, env=ENV, stdout=subprocess.PIPE, stderr=subprocess.STDOUT, timeout=timeout)
     return p.returncode, p.stdout.decode("utf-8", "replace")
 
+def recheck():
+    """lib/seedtest.py --recheck <name> [props...]: re-run the checks against seeded/<name>/patch.diff"""
+    name = sys.argv[2]
+    d = os.path.join(V, "seeded", name)
+    res = json.load(open(os.path.join(d, "meta.json")))
+    props = sys.argv[3:] or [res["property"]]
+    patch = os.path.join(d, "patch.diff")
+    rc, o = sh("git -C /repo status --porcelain")
+    assert o.strip() == "", "/repo not clean: " + o
+    rc, o = sh("git -C /repo apply %s" % patch)
+    assert rc == 0, "patch does not apply: " + o
+    try:
+        rc, o = sh("go build ./...", cwd="/repo")
+        res.setdefault("ran", {})["builds_on_current_main"] = rc == 0
+        for p in props:
+            t0 = time.time()
+            rc, o = sh("./check %s --tier quick" % p, cwd=V, timeout=3000)
+            viol = [l for l in o.splitlines() if l.startswith("VIOLATION")]
+            entry = {"exit": rc, "violation_lines": viol[:5], "summary_line": [l for l in o.splitlines() if l.startswith("check ")][-1:],
+                     "seconds": round(time.time() - t0, 1)}
+            if viol:
+                mm = re.search(r"replay=(\S+)", viol[0])
+                if mm and os.path.exists(mm.group(1)):
+                    rp = json.load(open(mm.group(1)))
+                    entry["first_replay"] = {"kind": rp.get("kind"), "sig": rp.get("sig"), "what": (rp.get("what") or "")[:400]}
+                    rc2, o2 = sh("./check %s --replay %s" % (p, mm.group(1)), cwd=V, timeout=3000)
+                    entry["replay_reproduces"] = rc2 != 0
+            res.setdefault("checks", {})[p] = entry
+    finally:
+        sh("git -C /repo checkout -- .")
+    json.dump(res, open(os.path.join(d, "meta.json"), "w"), indent=1)
+    print(name, {p: (e["exit"], e["violation_lines"][:1], e.get("replay_reproduces")) for p, e in res["checks"].items()})
+
 def main():
+    if sys.argv[1] == "--recheck":
+        return recheck()
     prop, out, k, name = sys.argv[1], sys.argv[2], sys.argv[3], sys.argv[4]
     extra_props = sys.argv[5:]  # further properties whose checks should also be run
     patch = os.path.join(out, "m%s.patch.diff" % k)
